@@ -5,12 +5,12 @@ CONSTS = {"CertKeys": '{"k1","k2","k3"}'}
 GEN_CFGS = {}
 
 
-def G(tag, classes, depth, num, props, nidl=False, base=True, sw=False, regw=False, unix=False, nide=False, lstate=False):
+def G(tag, classes, depth, num, props, nidl=False, base=True, sw=False, regw=False, unix=False, nide=False, lstate=False, life=0):
     name = "HandshakeGen_%s.cfg" % tag
     GEN_CFGS[name] = ("SPECIFICATION Spec\nCONSTANTS\n  CertKeys = {\"k1\",\"k2\",\"k3\"}\n  Depth = %d\n  Classes = {%s}\n  CfgNidl = %s\n  CfgBase = %s\nCHECK_DEADLOCK FALSE\n"
                       % (depth, ",".join('"%s"' % c for c in classes), "TRUE" if nidl else "FALSE", "TRUE" if base else "FALSE"))
     return dict(module="HandshakeGen.tla", cfg=name, depth=depth, num=num, props=props, tag=tag,
-                beh_cfg=dict(nidl=nidl, nide=nide, lstate=lstate, base=base, sw=sw, regw=regw, unix=unix, lifeSec=0, certKeys=["k1", "k2", "k3"]))
+                beh_cfg=dict(nidl=nidl, nide=nide, lstate=lstate, base=base, sw=sw, regw=regw, unix=unix, lifeSec=life, certKeys=["k1", "k2", "k3"]))
 
 
 def materialise(scr):
@@ -29,6 +29,9 @@ GENS = [
     # a node-id capable store that answers an unknown node id with an empty set rather than not-found
     G("c02d", ["Enroll", "Remove", "ConnectNear", "ConnectNear", "ConnectHonest", "ConnectRand"], 10,
       dict(quick=20, thorough=500), ["C02"], nidl=True, nide=True),
+    # real time (8 s roots): adversarial clients and honest dials across waits, promotions and a late operator
+    G("c02p", ["Enroll", "ConnectHonest", "ConnectNear", "ConnectNear", "Dial", "WaitOverlap", "RotateWait", "ExpireWait", "Remove"], 9,
+      dict(quick=10, thorough=160), ["C02", "C07"], nidl=True, life=8),
     G("c07a", ["NewNode", "DialPending", "AuthorizePending", "DialPending", "Enroll", "Rogue", "Rogue", "Dial", "Remove"], 10,
       dict(quick=30, thorough=500), ["C07"]),
     G("c07b", ["NewNode", "DialPending", "AuthorizePending", "Enroll", "Rogue", "Dial"], 9,
